@@ -37,6 +37,7 @@ CASES = {
     "uniform_varhi": (tfd.Uniform, {"low": 0.0, "high": ("var", "hi", 2.0)}, 1.0),
     "normal_vec": (tfd.Normal, {"loc": ("var", "m", 0.5), "scale": 1.5}, [0.2, -0.4, 1.0]),
     "lognormal": (tfd.LogNormal, {"loc": 0.0, "scale": 0.5}, 1.7),
+    "uniform_pm1": (tfd.Uniform, {"low": -1.0, "high": 1.0}, 0.3),
 }
 # bijector choices: (spec name, mode, maker(params_vars) -> (args for transform, fn(param values) -> TFP bijector))
 BIJ = {
@@ -49,6 +50,8 @@ BIJ = {
     "softplus_class_hinge": ("class_args", lambda pv: ((tfb.Softplus,), {"hinge_softness": 0.7}),
                              lambda p: tfb.Softplus(hinge_softness=0.7)),
     "scale_class_var": ("class_args", lambda pv: ((tfb.Scale,), {"scale": pv["__bv"]}), lambda p: tfb.Scale(p["__bv"])),
+    # liesel's own bijector onto (-1, 1)
+    "algsig_instance": ("instance", lambda pv: ((_algsig(),), {}), lambda p: _algsig()),
     "default": ("default", lambda pv: ((), {}), None),
     "auto": ("auto", lambda pv: ((), {}), None),
     "gb_default": ("deprecated_gb", lambda pv: ((), {}), None),
@@ -65,10 +68,16 @@ COMPAT = {
     "uniform_varhi": ["default", "auto", "gb_default"],
     "normal_vec": ["scale_class_const", "scale_class_var"],
     "lognormal": ["exp_instance", "default"],
+    "uniform_pm1": ["algsig_instance"],
 }
 
 
-def one_trace(rng, case, bname, parameter=True, observed=False, via_copy=False, per_obs=True):
+def _algsig():
+    from liesel.bijectors import AlgebraicSigmoid
+    return AlgebraicSigmoid()
+
+
+def one_trace(rng, case, bname, parameter=True, observed=False, via_copy=False, per_obs=True, fail_first=False):
     """via_copy: the assignments are made on a deep copy of the built model (what the Goose interface and
     build_model(copy=True) work on); per_obs: the flag of the original distribution node."""
     dist_cls, pspec, x0 = CASES[case]
@@ -100,6 +109,18 @@ def one_trace(rng, case, bname, parameter=True, observed=False, via_copy=False, 
         return bij_of({"__bv": jnp.float32(bval)})
 
     ev = []
+    if fail_first:
+        # a first call that raises half-way (misspelt bijector argument); the retry below must find everything as before
+        f = {"ev": "transform", "bij": "<unconstructible>"}
+        try:
+            x.transform(tfb.Softplus, hinge_softnes=0.7)
+            f.update({"ok": True, "reason": "none"})
+        except Exception:  # noqa: BLE001
+            f.update({"ok": False, "reason": "bad_bijector"})
+        f["names"] = ["x"]
+        f["flags"] = {"x": {"weak": bool(x.weak), "has_dist": bool(x.has_dist), "parameter": bool(x.parameter),
+                            "observed": bool(x.observed)}}
+        ev.append(f)
     e = {"ev": "transform", "bij": bname}
     gb = lsl.GraphBuilder()
     model = None
@@ -123,7 +144,7 @@ def one_trace(rng, case, bname, parameter=True, observed=False, via_copy=False, 
         e["names"] = ["x"]
         e["flags"] = {"x": {"weak": bool(x.weak), "has_dist": bool(x.has_dist), "parameter": bool(x.parameter),
                             "observed": bool(x.observed)}}
-        return {"hdr": hdr, "ev": [e]}
+        return {"hdr": hdr, "ev": ev + [e]}
     if model is None:
         model = gb.add(xx, tv, bvar).build_model()
     copy_ok = True
@@ -209,6 +230,10 @@ def all_traces(rng, reps=1):
             if r == reps - 1 and (any(isinstance(v, tuple) for v in CASES[case][1].values()) or bname == "scale_class_var"):
                 # distribution / bijector parameters are variables: the same on a deep copy of the model
                 out.append(one_trace(rng, case, bname, via_copy=True))
+    # a failing first call (raises after the early checks), then the proper one
+    for case, bname in (("exponential", "exp_instance"), ("gamma_varparam", "default"), ("halfnormal", "auto"),
+                        ("invgamma", "gb_default"), ("exponential", "softplus_class_hinge")):
+        out.append(one_trace(rng, case, bname, fail_first=True))
     # the original distribution stores its log-density summed (per_obs = False)
     for case, bname in (("normal_vec", "scale_class_const"), ("normal_vec", "scale_class_var"), ("exponential", "default"),
                         ("gamma_varparam", "auto"), ("halfcauchy", "gb_default")):
